@@ -1,4 +1,5 @@
 import GohbaseVerif.Lemmas.Conn
+import GohbaseVerif.Gen.Exits
 /-!
 # C18 — the read timeout tears the connection down only while something is outstanding
 
@@ -145,5 +146,18 @@ theorem deadline_invariant {q : Nat} {s : St} (h : Reachable q s) (hd : s.done =
     (mHeld s = false → s.mWait = []) := by
   have g := good_reachable h
   exact ⟨g.gd.excl, g.gd.eq ⟨hd, hid⟩, g.gd.i1 ⟨hd, hid⟩, g.gd.i2 ⟨hd, hid⟩, g.rest⟩
+
+/-- Regenerated from rpc.go, region/new.go and region/client.go: the duration that decides when a
+silent server is detected is the configured `RegionReadTimeout` on every connection the client
+creates. `establishRegion` passes `c.regionReadTimeout` in the read-timeout position of *both*
+`newRegionClientFn` calls (regionserver / hbase:meta connections and the admin client's master
+connection); `region.NewClient` stores its sixth parameter in the `readTimeout` field; and the
+only non-zero argument of `SetReadDeadline` is `time.Now().Add(c.readTimeout)` (the other one is
+the zero time, which clears the deadline: `Act.clear`). So the `timeout` action of the model fires
+`readTimeout` after the last request was written, where `readTimeout` is what the user configured. -/
+theorem read_timeout_is_the_configured_one_in_source :
+    GV.Gen.Exits.regionClientReadTimeoutArgs = ["c.regionReadTimeout", "c.regionReadTimeout"] ∧
+    GV.Gen.Exits.newClientReadTimeoutParam = ("readTimeout", "readTimeout") ∧
+    GV.Gen.Exits.readDeadlineArgs = ["time.Now().Add(c.readTimeout)", "time.Time{}"] := by decide
 
 end GV.Conn
